@@ -325,14 +325,15 @@ example : isValidV {} [0x22, 0x5c, 0x75, 0x64, 0x38, 0x30, 0x30, 0x22] = false :
 example : isValidV { allowInvalidUTF8 := true } [0x22, 0x5c, 0x75, 0x64, 0x38, 0x30, 0x30, 0x22] = true := by decide +kernel
 example : (⟨true, true, true, false, false, compactOpts⟩ : FOpts).verbatim := ⟨rfl, rfl, rfl⟩
 
-/-- **Meaning preserved and fixed point when strings are respelled** (any PreserveRawStrings, both validation
-options, no escape option — in particular `Value.Format()` with the default options): the output is accepted under
+/-- **Meaning preserved and fixed point when strings are respelled** (both validation options; every combination of
+PreserveRawStrings / EscapeForHTML / EscapeForJS except PreserveRawStrings together with an escape option — in
+particular `Value.Format()` with the default options, and with the escape options): the output is accepted under
 the same validation options, its tokens are the input tokens with every string respelled (ReformatString, slice
 C11: the RFC 8785 spelling of the same text), every string keeps its unquoted text, all other tokens are unchanged,
 and formatting the output again returns it unchanged.  With AllowDuplicateNames(false) the statement is relative to
 `NameKeyUnquote` (the name key of a literal is its unquoted text; a fact about C01's `unescapedName` not yet proved
 in slice wire); with AllowDuplicateNames(true) it is unconditional. -/
-theorem formatV_respell (o : FOpts) (hR : o.noEscape) (hw : o.ws.Blank) (hd : o.allowDup = true ∨ NameKeyUnquote)
+theorem formatV_respell (o : FOpts) (hR : o.respellable) (hw : o.ws.Blank) (hd : o.allowDup = true ∨ NameKeyUnquote)
     (b b' : Bytes) (h : formatV o b = some b') :
     ∃ ts, tokenizeV o b = some ts ∧ tokenizeV o b' = some (ts.map (respell o)) ∧
       (∀ k ∈ ts, match k with
@@ -357,13 +358,25 @@ theorem formatV_respell (o : FOpts) (hR : o.noEscape) (hw : o.ws.Blank) (hd : o.
       simp only [hb', h3, h]
 
 /-- the default options of `Value.Format` have no escape option -/
-example : ({} : FOpts).noEscape := ⟨rfl, rfl⟩
+example : ({} : FOpts).respellable := Or.inl ⟨rfl, rfl⟩
+example : ({ html := true, js := true } : FOpts).respellable := Or.inr rfl
+
+/-- For EVERY string option set (also PreserveRawStrings with an escape option) under strict UTF-8: each string of an
+accepted text keeps its unquoted text when respelled (slice C11's `reformat_meaning_strict`). -/
+theorem respell_string_meaning_strict (o : FOpts) (hu : o.allowInvalidUTF8 = false) (b : Bytes) (ts : List Tok)
+    (h : tokenizeV o b = some ts) (raw : Bytes) (hm : Tok.str raw ∈ ts) :
+    (Model.Wire.unquote (respellStr o raw)).1 = (Model.Wire.unquote raw).1 := by
+  have hj := strs_of_tokenizeV o b ts h raw hm
+  rw [hu] at hj
+  rw [wire_unquote_unqS, wire_unquote_unqS]
+  exact respellStr_meaning_strict o hu raw (by simpa using hj)
 
 /-- the remaining hypothesis of `formatV_respell` under AllowDuplicateNames(false) -/
 def nameKey_unquote_full : Prop := NameKeyUnquote
 
-/-- Full statements over ALL string options (open part: EscapeForHTML / EscapeForJS, where the output literal is not
-the RFC 8785 spelling), validated by the harness predicates and by the `fmt formatv` correspondence: the output tokens are the input tokens with every
+/-- Full statements over ALL string options (open part: PreserveRawStrings together with EscapeForHTML / EscapeForJS —
+the escape loop over the raw literal: slice C11 proves its meaning under strict UTF-8 (`reformat_meaning_strict`), but
+not yet that its output is again a string literal and a fixed point of the loop), validated by the harness predicates and by the `fmt formatv` correspondence: the output tokens are the input tokens with every
 string replaced by a literal of the same unescaped value, and formatting is idempotent. -/
 def formatV_meaning_full : Prop :=
   ∀ (o : FOpts) (b b' : Bytes), o.ws.Blank → formatV o b = some b' →
